@@ -42,17 +42,24 @@ func runC15(o opts) error {
 		scns = append(scns, c15.Fixed()...)
 		if o.tier == "thorough" {
 			scns = append(scns, c15.GenRoute(5, rng, 0)...)
-			scns = append(scns, c15.GenRandom(rng, 40000, false)...)
+			scns = append(scns, c15.GenRandom(rng, 40000, false, false)...)
 			scns = append(scns, c15.GenHidden(2, 4, rng, 0)...)
 			scns = append(scns, c15.GenHidden(5, 5, rng, 4)...)
-			scns = append(scns, c15.GenRandom(rng, 10000, true)...)
+			scns = append(scns, c15.GenRandom(rng, 10000, true, false)...)
+			scns = append(scns, c15.GenReparent(4, 5, rng, 0)...)
+			scns = append(scns, c15.GenRandom(rng, 6000, false, true)...)
+			scns = append(scns, c15.GenRandom(rng, 4000, true, true)...)
 		} else {
 			scns = append(scns, c15.GenRoute(4, rng, 0)...)
 			scns = append(scns, c15.GenRoute(5, rng, 24)[118*2:]...)
-			scns = append(scns, c15.GenRandom(rng, 1500, false)...)
+			scns = append(scns, c15.GenRandom(rng, 1500, false, false)...)
 			scns = append(scns, c15.GenHidden(2, 3, rng, 0)...)
 			scns = append(scns, c15.GenHidden(4, 4, rng, 4)...)
-			scns = append(scns, c15.GenRandom(rng, 400, true)...)
+			scns = append(scns, c15.GenRandom(rng, 400, true, false)...)
+			scns = append(scns, c15.GenReparent(4, 4, rng, 0)...)
+			scns = append(scns, c15.GenReparent(5, 5, rng, 24)...)
+			scns = append(scns, c15.GenRandom(rng, 200, false, true)...)
+			scns = append(scns, c15.GenRandom(rng, 100, true, true)...)
 		}
 	}
 	sink, err := trace.NewSink(o.out, o.shards)
